@@ -321,7 +321,27 @@ def run(ctx):
             bare += 1
         m += 1
         okc += bool(compare_commas(ctx, toks, rec['ref'], strutils, i, 'items', {'force': rec['force']}))
-    ctx.stage('split_by_commas-inverse', lists=m, accepted_by_code=okc, first_item_quoted=quoted, first_item_bare=bare)
+    # long lists: 150 of the written lists one after the other, joined with commas, are one written list of some 450 items
+    longs = 0
+    recs = res.records
+    for g in range(0, len(recs) - 150, max(150, len(recs) // (12 if ctx.quick else 120))):
+        group = recs[g:g + 150]
+        if len(group) < 150:
+            break
+        text = ','.join(render_chars(seq(seq(r['text'])), g + j) for j, r in enumerate(group))
+        want = []
+        for j, r in enumerate(group):
+            want += render_items(seq(r['ref']['items']), g + j)
+        got = call(strutils.split_by_commas, text)
+        longs += 1
+        if got != ('ok', want):
+            ctx.violation({'fn': 'split_by_commas', 'kind': 'long-list', 'got': got[0]},
+                          {'items': len(want), 'text_head': text[:200], 'observed': [got[0], repr(got[1])[:300]]},
+                          'split_by_commas of a written list of %d items (%d characters): %s, specification: the %d items' % (
+                              len(want), len(text), (got[0], repr(got[1])[:120]), len(want)))
+    if longs < 5:
+        raise MachineryError('vacuity: %d long lists' % longs)
+    ctx.stage('split_by_commas-inverse', lists=m, accepted_by_code=okc, first_item_quoted=quoted, first_item_bare=bare, long_lists=longs)
     if seen_chars != set(CHAR_MEMBERS) or lens != {1, 2, 3, 4, 5} or not quoted or not bare:
         raise MachineryError('vacuity: item characters %s lengths %s' % (sorted(seen_chars), sorted(lens)))
     ctx.cov['evaluations'] += m
